@@ -130,3 +130,23 @@ func diffDumpKeys(x, y [][2][]byte) []string {
 	}
 	return r
 }
+
+// SameStates: both trees hold the same keys, values and leaf versions (and so, for equal shapes, the same roots).
+func SameStates(a, b *appstate.AppState) bool {
+	if a == nil || b == nil {
+		return false
+	}
+	if diffDump("state", a.State.VerifDump(), b.State.VerifDump()) != "" || diffDump("identity", a.IdentityState.VerifDump(), b.IdentityState.VerifDump()) != "" {
+		return false
+	}
+	va, vb := a.State.VerifDumpVersions(), b.State.VerifDumpVersions()
+	if len(va) != len(vb) {
+		return false
+	}
+	for k, v := range va {
+		if vb[k] != v {
+			return false
+		}
+	}
+	return a.State.Root() == b.State.Root() && a.IdentityState.Root() == b.IdentityState.Root()
+}
